@@ -86,6 +86,13 @@ def case(fam, geometry, rep):
             rbu.mesh.update(points=rbu.mesh.points @ A_.T + t_, callback=rbu.reload)
             MB.check_boundary_region(run, rbu, mesh.copy(points=mesh.points @ A_.T + t_), label=fam + "[reload]")
             run.units[fam + ":reload"] += 1
+            # the documented refresh after moving the body: the *user's* mesh is updated and hands itself to the region's reload
+            m_usr = mesh.copy()
+            rbv = R(m_usr, only_surface=bool(rep % 2 == 0))
+            A2, t2 = gen.random_affine(rng, dim)
+            m_usr.update(points=m_usr.points @ A2.T + t2, callback=rbv.reload)
+            MB.check_boundary_region(run, rbv, mesh.copy(points=mesh.points @ A2.T + t2), label=fam + "[reload by the body's mesh]")
+            run.units[fam + ":reload-by-body-mesh"] += 1
             # the geometric gradient of the boundary cells stays the derivative of the position (dXdr drdX = 1)
             one = np.einsum("IKqc,KJqc->IJqc", rb0.dXdr, rb0.drdX)
             run.compare("boundary.geometry", "celltype=%s clause=dXdr-times-drdX" % fam, maxabs(one - np.eye(dim).reshape(dim, dim, 1, 1)), 1e-10,
@@ -167,7 +174,7 @@ def _required():
             u = "%s:only_surface=%s" % (fam, s)
             req += [u + ":normals", u + ":tangents", u + ":outward", u + ":flux"]
         req += ["%s:only_surface=True:closure" % fam, "%s:only_surface=False:cell-closure" % fam, fam + ":mask",
-                fam + ":cells_faces", fam + ":surface-selection"]
+                fam + ":cells_faces", fam + ":surface-selection", fam + ":reload-by-body-mesh"]
     req += ["quad:ensure_3d", "quad8:ensure_3d", "quad9:ensure_3d", "points-in-random-order"]
     req += ["%s:only_surface=%s:face-area-vector" % (f, s_) for f in ("quad", "hexahedron") for s_ in (True, False)]
     return req
